@@ -32,6 +32,8 @@ pub fn main(args: &[String], w: &mut dyn Write) {
         let code = *r.pick(&[0, 0, 0, 1, 3, 255]);
         let out = crate::p_gen::gen_output(&mut r);
         let titled = r.chance(1, 2);
+        // --cram-compat with a Markdown document: the Cram defaults are the base, they are written into the header
+        let compat = !cram && r.chance(1, 5);
         let dir = tempfile::Builder::new().prefix("createcli.").tempdir_in(&base).unwrap();
         let tmp = dir.path().join("tmp"); std::fs::create_dir_all(&tmp).unwrap();
         let file = if cram { "doc.t" } else { "doc.md" };
@@ -39,12 +41,15 @@ pub fn main(args: &[String], w: &mut dyn Write) {
         let mut a: Vec<&str> = vec!["create", "--log-level", "error", "--format", if cram { "cram" } else { "markdown" }, "--output", file];
         if esc != "-" { a.push("--escaping"); a.push(esc); }
         if titled { a.push("--title"); a.push("A title"); }
+        if compat { a.push("--cram-compat"); }
         a.push("--"); a.push(&cmd);
         let (ec, _) = run(&scrut, dir.path(), &tmp, &a);
         let doc = std::fs::read(dir.path().join(file)).unwrap_or_default();
         let (et, _) = run(&scrut, dir.path(), &tmp, &["test", "--log-level", "error", file]);
+        // a document created under --cram-compat passes with and without that option
+        let et = if compat && et == 0 { run(&scrut, dir.path(), &tmp, &["test", "--log-level", "error", "--cram-compat", file]).0 } else { et };
         let left = std::fs::read_dir(&tmp).map(|d| d.count()).unwrap_or(0);
-        writeln!(w, "J {} {} {} {} {} {}|{}|create={} test={} leftover={}", if cram { 'c' } else { 'm' }, esc, hex(cmd.as_bytes()), code, hex(&out),
+        writeln!(w, "J {} {} {} {} {} {}|{}|create={} test={} leftover={}", if cram { 'c' } else if compat { 'k' } else { 'm' }, esc, hex(cmd.as_bytes()), code, hex(&out),
             if titled { hex(b"A title") } else { hex(b"Command executes successfully") }, hex(&doc), ec, et, left).unwrap();
     }
 }
